@@ -560,6 +560,13 @@ func placements(sq square.Square, kept [][]byte) ([]placement, error) {
 func genC03(c *Ctx) {
 	emptyTxOK = true
 	defer func() { emptyTxOK = false }()
+	defer func() {
+		// squares exported by ONE live builder in the middle of and at the end of a history of appends,
+		// exports and queries are the same well-formed squares Construct gives for the accepted transactions
+		for i := 0; i < 30*c.scale; i++ {
+			liveBuilderHistory(c, c.rng, randSquareCase(c, c.rng, false, false), "Builder (live)")
+		}
+	}()
 	shortInner = true
 	defer func() { shortInner = false }()
 	c.rule = "squares from Build and Construct over mixed lists as in C01; direct scan: side, share count and size, namespace order, region structure, canonical padding everywhere outside the two compact sequences and the blobs; non-trivial = distinct case with at least one blob or two transactions"
@@ -690,6 +697,7 @@ func genC04(c *Ctx) {
 	for i := 0; i < 160*c.scale; i++ {
 		list = append(list, randSquareCase(c, r, true, r.Bool(40)))
 	}
+	list = append(list, manyTxManyBlobCases(c, r)...)
 	nModel := len(list)
 	list = append(list, bigSquareCases(c, r, true)...) // Go side only
 	for ci, s := range list {
@@ -796,6 +804,7 @@ func genC06(c *Ctx) {
 	list = append(list, oversizedBlobCases(c, r)...)
 	list = append(list, bigSquareCases(c, r, false)...)
 	list = append(list, nearExactFillCases(c, r)...)
+	exportThenShiftSweep(c, r, "Builder (export, append, export)")
 	for ci, s := range list {
 		if ci < nModel {
 			ops := make([]string, 0, 2*len(s.txs)+2)
@@ -1145,6 +1154,99 @@ func oversizedBlobCases(c *Ctx, r *Rng) []sqCase {
 		}
 	}
 	return out
+}
+
+// manyTxManyBlobCases: 12-14 blob transactions of which one early one carries 11-13 blobs, all with different
+// share counts: every (transaction, blob) pair has two-digit components, so a lookup keyed by anything less
+// than the PAIR (a concatenation, a sum, a product) confuses two of them.
+func manyTxManyBlobCases(c *Ctx, r *Rng) []sqCase {
+	var out []sqCase
+	for v := 0; v < 2; v++ {
+		nss := blobNamespaces(r, 3)
+		// (fat, 10) and (10*fat+1, 0) both exist: "110" / "210" read either way
+		fat := 1 + v
+		n := 10*fat + 2 + r.Intn(2)
+		var l []genTx
+		cnt := 0
+		for i := 0; i < n; i++ {
+			k := 1 + r.Intn(2)
+			if i == fat {
+				k = 11 + r.Intn(3)
+			}
+			bl := make([]genBlob, k)
+			sizes := make([]uint32, k)
+			for j := range bl {
+				cnt++
+				b := randBlob(r, nss, 100)
+				b.data = r.Bytes(1 + 482*(cnt%7) + r.Intn(300))
+				bl[j] = b
+				sizes[j] = uint32(len(b.data))
+			}
+			l = append(l, genTx{raw: blobTxWithInner(mockPFB(r.Bytes(mockPFBExtraBytes), sizes), bl), blobs: bl})
+		}
+		out = append(out, sqCase{txs: l, max: 32, thr: 64})
+		c.count("many_txs_one_with_many_blobs")
+	}
+	return out
+}
+
+// exportThenShiftSweep (live builder, Go side only): six small blobs in high namespaces, an EXPORT (their share
+// indexes are below 128 and the wrapped PFBs get their real, short sizes), then one blob of 130 shares in a low
+// namespace - it sorts in front and pushes the six indexes to 128 and beyond, so each wrapped PFB grows by a
+// byte - with the new transaction's inner length swept over 1..480 so that the PFB byte total passes over a
+// compact share boundary.  Whatever an export remembered about PFB sizes must not survive the append.
+func exportThenShiftSweep(c *Ctx, r *Rng, site string) {
+	hi := make([][]byte, 6)
+	for i := range hi {
+		ns := make([]byte, 29)
+		ns[19] = 0xf0
+		ns[28] = byte(10 + i)
+		hi[i] = ns
+	}
+	lo := make([]byte, 29)
+	lo[28] = 0x21
+	small := make([]genTx, 6)
+	for i := range small {
+		b := genBlob{ns: hi[i], data: r.Bytes(1 + r.Intn(400))}
+		bl := []genBlob{b}
+		small[i] = genTx{raw: blobTxWithInner(mockPFB(r.Bytes(mockPFBExtraBytes), []uint32{uint32(len(b.data))}), bl), blobs: bl}
+	}
+	bigData := r.Bytes(478 + 482*129)
+	for L := 1; L <= 480; L++ {
+		b, err := square.NewBuilder(32, 64)
+		if err != nil {
+			return
+		}
+		var kept [][]byte
+		okAll := true
+		for _, t := range small {
+			bt, _, _ := tx.UnmarshalBlobTx(t.raw)
+			if !b.AppendBlobTx(bt) {
+				okAll = false
+			}
+			kept = append(kept, t.raw)
+		}
+		if _, err := b.Export(); err != nil || !okAll {
+			continue
+		}
+		bigBlob := genBlob{ns: lo, data: bigData}
+		raw := blobTxWithInner(r.Bytes(L), []genBlob{bigBlob})
+		bt, _, _ := tx.UnmarshalBlobTx(raw)
+		wit := map[string]any{"history": "6 small blobs in high namespaces, export, 130-share blob in a low namespace", "inner_len": L}
+		if !b.AppendBlobTx(bt) {
+			continue
+		}
+		kept = append(kept, raw)
+		sq, err := b.Export()
+		if !c.check(err == nil, site, "Export fails after an append that follows an export", wit) {
+			continue
+		}
+		c.check(b.CurrentSize() >= occupied(sq), site, "estimate smaller than the number of shares actually occupied", wit)
+		want, err := square.Construct(kept, 32, 64)
+		c.check(err == nil && sameSquare(sq, want), site, "the live builder's export differs from Construct over the accepted transactions", wit)
+	}
+	c.count("export_then_index_shift_sweep")
+	c.goOnly++
 }
 
 // duplicateTxCases: lists in which the same ordinary transaction (byte-identical) occurs several times with
@@ -1535,6 +1637,7 @@ func genC14(c *Ctx) {
 	for i := 0; i < 15*c.scale; i++ {
 		liveBuilderHistory(c, r, randSquareCase(c, r, false, false), "Builder (live)")
 	}
+	exportThenShiftSweep(c, r, "Builder (export, append, export)")
 	// builder half
 	for i := 0; i < 140*c.scale; i++ {
 		s := randSquareCase(c, r, false, true)
